@@ -998,8 +998,10 @@ impl Engine for SrvSim {
     fn isolate() -> bool {
         true
     }
-    fn budget(_prop: &str, tier: Tier) -> (u64, u64) {
+    fn budget(prop: &str, tier: Tier) -> (u64, u64) {
         match tier {
+            // C05/C06/C08 run fault-point sweeps on top of the random runs
+            Tier::Quick if matches!(prop, "C05" | "C06" | "C08") => (100_000, 60),
             Tier::Quick => (150_000, 60),
             Tier::Thorough => (6_000_000, 600),
         }
